@@ -186,24 +186,59 @@ def show_match(cm):
 # --------------------------------------------------------------------------
 # the real code
 
-class RealRun:
-    """One call of pedal.cait.cait_api.find_matches(pattern, student_code=code) on a fresh Report."""
+def index_of(node, path=(), index=None):
+    """id(CaitNode) -> path, for a whole tree."""
+    if index is None:
+        index = {}
+    index[id(node)] = path
+    for i, c in enumerate(node.children):
+        index_of(c, path + (i,), index)
+    return index
 
-    def __init__(self, pattern, code):
-        self.pattern = pattern
+
+def fields_of(node, out=None):
+    if out is None:
+        out = []
+    out.append(node.field)
+    for c in node.children:
+        fields_of(c, out)
+    return out
+
+
+class Program:
+    """A student program parsed once by CAIT (one Report, as in a real grading script: every
+    find_matches call on it reuses the cached CaitNode tree)."""
+
+    def __init__(self, code):
         self.code = code
+        self.report = Report()
+        self.sroot = parse_program(code, report=self.report)
+        self.sindex = {}
+        self.stree = tree_of(self.sroot, (), self.sindex)
+        self.senc = enc_tree(self.stree)
+        self.sfields = fields_of(self.sroot)
+        self.size = len(self.sfields)
+
+
+class RealRun:
+    """One call of pedal.cait.cait_api.find_matches(pattern, student_code=code)."""
+
+    def __init__(self, pattern, program):
+        if isinstance(program, str):
+            program = Program(program)
+        self.program = program
+        self.pattern = pattern
+        self.code = program.code
         self.exc = None
         self.matches = None     # canonical
         self.raw = None
-        report = Report()
-        # the trees as CaitNode builds them (the matcher builds the pattern tree the same way)
-        self.sroot = parse_program(code, report=report)
-        self.sindex = {}
-        self.stree = tree_of(self.sroot, (), self.sindex)
-        proot = CaitNode(ast.parse(pattern), "none", report=report)
+        self.sroot = program.sroot
+        # the pattern tree as CaitNode builds it (the matcher builds its own the same way)
+        proot = CaitNode(ast.parse(pattern), "none", report=program.report)
         self.ptree = tree_of(proot, (), {})
+        self.penc = enc_tree(self.ptree)
         try:
-            raw = find_matches(pattern, student_code=code, report=report)
+            raw = find_matches(pattern, student_code=program.code, report=program.report)
         except RecursionError:
             raise
         except Exception as e:   # the property is about every pattern: an exception is an observation
@@ -215,22 +250,22 @@ class RealRun:
             k = next(iter(raw[0].mappings))
             while k.parent is not None:
                 k = k.parent
-            pindex = {}
-            ptree2 = tree_of(k, (), pindex)
-            if ptree2 != self.ptree:
+            pindex = index_of(k)
+            if len(pindex) != tree_size(self.ptree):
                 raise RuntimeError("pattern tree rebuilt differently")
-            self.matches = [canon_real_match(m, pindex, self.sindex) for m in raw]
+            self.matches = [canon_real_match(m, pindex, program.sindex) for m in raw]
         else:
             self.matches = []
-        # field restoration after matching is observable: rebuild and compare
-        if tree_of(self.sroot, (), {}) != self.stree:
+        # the fields changed by root trimming must be restored after matching
+        if fields_of(program.sroot) != program.sfields:
             self.exc = "student-tree-fields-not-restored"
 
     def request(self):
-        return "match " + enc_tree(self.ptree) + " " + enc_tree(self.stree)
+        return "match " + self.penc + " " + self.program.senc
 
-    def embed_request(self, i):
-        return "embed " + enc_tree(self.ptree) + " " + enc_tree(self.stree) + " " + enc_match(self.matches[i])
+    def embed_request(self):
+        return ("embed " + self.penc + " " + self.program.senc + " " + str(len(self.matches)) + " " +
+                " ".join(enc_match(m) for m in self.matches))
 
 
 def node_at(root, path):
@@ -482,20 +517,26 @@ def stmt_positions(tree):
     return res
 
 
-def cait_path_of(cait_root, ast_node):
-    """path of the CaitNode wrapping `ast_node`."""
-    target = ast_node.cait_node
-    path = []
-    n = target
-    while n is not cait_root and n.parent is not None:
-        path.append(next(i for i, c in enumerate(n.parent.children) if c is n))
-        n = n.parent
-    return tuple(reversed(path))
+def ast_index(node, path=(), index=None):
+    """id(ast node) -> CAIT path (children = AST-valued field items in iter_fields order, as CaitNode)."""
+    if index is None:
+        index = {}
+    index[id(node)] = path
+    i = 0
+    for _, value in ast.iter_fields(node):
+        if value is None:
+            continue
+        for v in (value if isinstance(value, list) else [value]):
+            if isinstance(v, ast.AST):
+                ast_index(v, path + (i,), index)
+                i += 1
+    return index
 
 
 class Derived:
     """A pattern obtained from (a statement of) a program by C11's steps, with what each placeholder
-    replaced: exps[key] = AST node of the ORIGINAL program, vars[key] = original identifier."""
+    replaced: exps[key] = (CAIT path, source) of the replaced expression in the ORIGINAL program,
+    vars[key] = original identifier."""
 
     def __init__(self, code, pattern, exps, vars_, steps, base):
         self.code = code
@@ -513,6 +554,7 @@ def derive(rng, code, tree, whole=None, max_steps=4):
     orig_of = {}
     for a, b in zip(ast.walk(work), ast.walk(tree)):
         orig_of[id(a)] = b
+    opath = ast_index(tree)
     stmts = stmt_positions(work)
     steps = []
     if whole is None:
@@ -540,12 +582,12 @@ def derive(rng, code, tree, whole=None, max_steps=4):
             else:
                 key = "__e%d__" % len(exps)
                 new = ast.Name(id=key, ctx=getattr(node, "ctx", ast.Load()))
-                exps[key] = orig_of[id(node)]
+                o = orig_of[id(node)]
+                # a placeholder that is a whole expression statement stands for the statement: CAIT binds it
+                # to the Expr node, whose only child is the replaced expression
+                alt = opath[id(o)][:-1] if isinstance(parent, ast.Expr) else None
+                exps[key] = (opath[id(o)], ast.unparse(o), alt)
                 steps.append("exp:" + type(node).__name__)
-            # placeholders inside the replaced subtree are gone
-            gone = {id(x) for x in ast.walk(node)}
-            for kk in [kk for kk, v in exps.items() if any(orig_of.get(g) is v for g in gone) and kk != new.id]:
-                del exps[kk]
             _set(parent, field, idx, new)
         elif k < 0.80:
             ids = sorted({n.id for n in ast.walk(frag) if isinstance(n, ast.Name) and not n.id.startswith("_")} |
@@ -554,6 +596,9 @@ def derive(rng, code, tree, whole=None, max_steps=4):
                 continue
             x = rng.choice(ids)
             key = "_%s_" % x
+            if key in ids or any(getattr(n, "id", None) == key or getattr(n, "arg", None) == key
+                                 for n in ast.walk(frag)):
+                continue
             for n in ast.walk(frag):
                 if isinstance(n, ast.Name) and n.id == x:
                     n.id = key
@@ -572,9 +617,6 @@ def derive(rng, code, tree, whole=None, max_steps=4):
                 continue
             b = rng.choice(bodies)
             i = rng.randrange(len(b))
-            gone = {id(x) for x in ast.walk(b[i])}
-            for kk in [kk for kk, v in exps.items() if any(orig_of.get(g) is v for g in gone)]:
-                del exps[kk]
             del b[i]
             steps.append("drop")
     # placeholders that no longer occur (their subtree was replaced / dropped later)
@@ -589,8 +631,7 @@ def derive(rng, code, tree, whole=None, max_steps=4):
         return None
     # the text must denote the tree we built (unparse/parse is not always the identity, e.g. for
     # negative constants or implicit tuples): otherwise this is not a C11-derived pattern
-    if ast.dump(reparsed) != ast.dump(ast.parse(ast.unparse(reparsed))) or \
-            ast.dump(reparsed) != ast.dump(frag if isinstance(frag, ast.Module) else ast.Module(body=[frag], type_ignores=[])):
+    if ast.dump(reparsed) != ast.dump(frag):
         return None
     return Derived(code, pattern, exps, vars_, steps, base)
 
@@ -656,11 +697,11 @@ def c11_verdict(d, run):
         return "raises " + run.exc
     if not run.raw:
         return "no match"
-    want_exp = {k: cait_path_of(run.sroot, v) for k, v in d.exps.items()}
+    want_exp = {k: (v[0], v[2]) for k, v in d.exps.items()}
     for m, cm in zip(run.raw, run.matches):
         ok = True
-        for k, path in want_exp.items():
-            if cm["exps"].get(k) != path:
+        for k, paths in want_exp.items():
+            if cm["exps"].get(k) not in paths:
                 ok = False
                 break
         if ok:
